@@ -74,20 +74,6 @@ func splitTop(s, sep string) []string {
 // evalBoolText evaluates a contract formula (with ==>, <==>, forall) to an SMT Bool term.
 func (c *evalCtx) evalBoolText(s string) string {
 	s = strings.TrimSpace(s)
-	if parts := splitTop(s, "<==>"); len(parts) > 1 {
-		if len(parts) != 2 {
-			cfail("chained <==> in %q", s)
-		}
-		return fmt.Sprintf("(= %s %s)", c.evalBoolText(parts[0]), c.evalBoolText(parts[1]))
-	}
-	if parts := splitTop(s, "==>"); len(parts) > 1 {
-		// right associative
-		res := c.evalBoolText(parts[len(parts)-1])
-		for i := len(parts) - 2; i >= 0; i-- {
-			res = implies(c.evalBoolText(parts[i]), res)
-		}
-		return res
-	}
 	if strings.HasPrefix(s, "forall ") || strings.HasPrefix(s, "exists ") {
 		q := s[:6]
 		rest := strings.TrimSpace(s[7:])
@@ -110,6 +96,20 @@ func (c *evalCtx) evalBoolText(s string) string {
 		c2.bind = nb
 		body := c2.evalBoolText(rest[idx+2:])
 		return fmt.Sprintf("(%s ((%s %s)) %s)", q, name, c.f.enc.R.sortOf(t), body)
+	}
+	if parts := splitTop(s, "<==>"); len(parts) > 1 {
+		if len(parts) != 2 {
+			cfail("chained <==> in %q", s)
+		}
+		return fmt.Sprintf("(= %s %s)", c.evalBoolText(parts[0]), c.evalBoolText(parts[1]))
+	}
+	if parts := splitTop(s, "==>"); len(parts) > 1 {
+		// right associative
+		res := c.evalBoolText(parts[len(parts)-1])
+		for i := len(parts) - 2; i >= 0; i-- {
+			res = implies(c.evalBoolText(parts[i]), res)
+		}
+		return res
 	}
 	// a parenthesised formula containing ==> inside: strip one level
 	if strings.HasPrefix(s, "(") && matchingParen(s) == len(s)-1 && (strings.Contains(s, "==>") || strings.Contains(s, "forall ")) {
@@ -236,6 +236,10 @@ func (c *evalCtx) eval(e ast.Expr) SV {
 		return c.ident(x.Name)
 	case *ast.UnaryExpr:
 		v := c.eval(x.X)
+		if v.cval != nil && isUntyped(v.t) && x.Op == token.SUB && v.t.(*types.Basic).Kind() == types.UntypedFloat && constant.Sign(v.cval) == 0 {
+			// Go folds -0.0 to +0; in a specification the author means negative zero
+			return SV{t: types.Typ[types.Float64], term: "(_ -zero 11 53)"}
+		}
 		if v.cval != nil && isUntyped(v.t) {
 			if x.Op == token.NOT {
 				return SV{t: v.t, cval: constant.MakeBool(!constant.BoolVal(v.cval))}
@@ -313,6 +317,46 @@ func (c *evalCtx) eval(e ast.Expr) SV {
 		return SV{t: t, term: fmt.Sprintf("(v_%s %s)", strings.TrimPrefix(ctor, "I_"), v.term)}
 	case *ast.CallExpr:
 		return c.call(x)
+	case *ast.CompositeLit:
+		t := c.typeOfExpr(x.Type)
+		st, ok := t.Underlying().(*types.Struct)
+		if !ok {
+			cfail("composite literal of non-struct type %s", t)
+		}
+		if len(x.Elts) == 0 {
+			return SV{t: t, term: enc.zeroValue(t)}
+		}
+		si := enc.R.structOf(t)
+		vals := make([]string, st.NumFields())
+		for i := range vals {
+			vals[i] = enc.zeroValue(st.Field(i).Type())
+		}
+		for _, el := range x.Elts {
+			kv, ok := el.(*ast.KeyValueExpr)
+			if !ok {
+				cfail("composite literal needs field: value pairs")
+			}
+			name := kv.Key.(*ast.Ident).Name
+			found := false
+			for i := 0; i < st.NumFields(); i++ {
+				if st.Field(i).Name() == name {
+					v := c.eval(kv.Value)
+					ft := st.Field(i).Type()
+					if _, isIface := ft.Underlying().(*types.Interface); isIface && enc.R.sortOf(v.t) != "Iface" {
+						v = c.materialise(v)
+						v = SV{t: ft, term: fmt.Sprintf("(%s %s)", enc.R.ifaceCtor(v.t), v.term)}
+					} else {
+						v = c.materialise(c.coerce(v, ft))
+					}
+					vals[i] = v.term
+					found = true
+				}
+			}
+			if !found {
+				cfail("no field %s in %s", name, t)
+			}
+		}
+		return SV{t: t, term: "(mk-" + si.name + " " + strings.Join(vals, " ") + ")"}
 	}
 	cfail("unsupported contract expression %s (%T)", types.ExprString(e), e)
 	return SV{}
